@@ -10,171 +10,181 @@ use vh_lite::{read_cases, drive, drive_group, quiet_panics, Out};
 
 mod tc_left__pari;
 mod tc_left__src2;
-mod tc_left__permpar;
-mod tc_nonlin__topar;
-mod mutual__ser;
-mod mutual__src0;
-mod mutual__perm2;
-mod scc_chain__pari;
-mod scc_chain__u64;
-mod repeated__ser;
-mod repeated__u64;
-mod three_dyn__perm2;
-mod four_dyn__pari;
-mod conds__src1;
-mod conds__ren;
-mod count_up__to;
-mod multi_head__perm2;
-mod facts__gen;
-mod facts__perm1;
-mod opt_cols__par;
-mod opt_cols__redecl;
-mod same_gen__par;
-mod same_gen__str;
-mod two_inputs__pari;
-mod two_inputs__src2;
-mod two_inputs__permpar;
-mod ternary__par;
-mod ternary__strpar;
-mod bound_mix__str;
-mod join_chain__ren;
-mod reach__ser;
-mod self_join3__ser;
-mod lag_right__perm1;
-mod lag_left__par;
-mod lag_three__topar;
-mod lag_mid__str;
-mod sp_dual__ser;
-mod sp_dual__src0;
-mod sp_dual__perm2;
-mod longest_capped__ser;
-mod set_reach__to;
-mod set_reach__redecl;
-mod bset__topar;
-mod opt_lat__pari;
-mod lat_two_keys__par;
-mod lat_val_bound__par;
-mod count_paths__mrt;
+mod tc_left__ren;
+mod tc_nonlin__to;
+mod tc_nonlin__strpar;
+mod mutual__gen;
+mod mutual__srcpar;
+mod scc_chain__ser;
+mod scc_chain__permpar;
+mod consts__par;
+mod repeated__permpar;
+mod three_dyn__topar;
+mod four_dyn__ser;
+mod conds__gen;
+mod conds__srcpar;
+mod count_up__ser;
+mod multi_head__to;
+mod facts__pari;
+mod facts__redecl;
+mod facts__str;
+mod opt_cols__gen;
+mod opt_cols__srcpar;
+mod same_gen__topar;
+mod not_reorderable__ser;
+mod two_inputs__run;
+mod two_inputs__init;
+mod two_inputs__u64;
+mod ternary__perm1;
+mod bound_mix__par;
+mod bound_mix__strpar;
+mod join_chain__str;
+mod reach__pari;
+mod self_join3__pari;
+mod lag_right__ren;
+mod lag_left__to;
+mod lag_mid__par;
+mod lag_mid__strpar;
+mod multi_head_rec__pari;
+mod sp_dual__to;
+mod sp_dual__srcto;
+mod sp_dual__permpar;
+mod longest_capped__pari;
+mod set_reach__run;
+mod set_reach__init;
+mod cp__ser;
+mod lex_lat__ser;
+mod lat_two_keys__pari;
+mod lat_val_bound__pari;
+mod lat_input__gen;
+mod lat_input__srcpar;
+mod count_paths__gen;
 mod count_paths__srcpar;
 mod neg_basic__gen;
-mod neg_basic__perm1;
-mod agg_minmaxsum__pari;
-mod agg_lattice__pari;
-mod neg_rec_after__pari;
-mod agg_empty__pari;
-mod agg_const_args__ser;
-mod disj__to;
-mod disj__redecl;
-mod disj__exp;
-mod pat_args__par;
-mod rep_expr__exppar;
-mod neg_in_disj__pari;
-mod mac_basic__run;
-mod mac_basic__runpar;
-mod mac_capture__exppar;
-mod mac_gensym_disj__pari;
-mod rnd_core_01__ser;
-mod rnd_core_03__pari;
-mod rnd_core_06__par;
-mod rnd_core_09__ser;
-mod rnd_core_11__pari;
-mod rnd_core_14__par;
-mod rnd_core_17__ser;
-mod rnd_core_19__pari;
-mod rnd_core_22__par;
-mod rnd_core_25__ser;
-mod rnd_core_27__pari;
-mod rnd_core_30__par;
-mod rnd_agg_03__ser;
-mod rnd_agg_05__pari;
-mod rnd_agg_08__par;
-mod rnd_agg_11__ser;
-mod rnd_agg_13__pari;
+mod neg_basic__srcpar;
+mod agg_minmaxsum__par;
+mod agg_lattice__par;
+mod neg_rec_after__par;
+mod agg_empty__par;
+mod agg_empty_rel__topar;
+mod disj__pari;
+mod disj__src2;
+mod disj__ren;
+mod disj_nested__exppar;
+mod rep_expr__pari;
+mod neg_in_disj__ser;
+mod mac_basic__to;
+mod mac_basic__srcto;
+mod mac_capture__par;
+mod mac_nested__exppar;
+mod mac_disj__pari;
+mod rnd_core_02__pari;
+mod rnd_core_05__par;
+mod rnd_core_08__ser;
+mod rnd_core_10__pari;
+mod rnd_core_13__par;
+mod rnd_core_16__ser;
+mod rnd_core_18__pari;
+mod rnd_core_21__par;
+mod rnd_core_24__ser;
+mod rnd_core_26__pari;
+mod rnd_core_29__par;
+mod rnd_agg_02__ser;
+mod rnd_agg_04__pari;
+mod rnd_agg_07__par;
+mod rnd_agg_10__ser;
+mod rnd_agg_12__pari;
+mod rnd_agg_15__par;
 
 fn lookup(name: &str) -> fn() -> Box<dyn Driven> {
    match name {
       "tc_left__pari" => tc_left__pari::make,
       "tc_left__src2" => tc_left__src2::make,
-      "tc_left__permpar" => tc_left__permpar::make,
-      "tc_nonlin__topar" => tc_nonlin__topar::make,
-      "mutual__ser" => mutual__ser::make,
-      "mutual__src0" => mutual__src0::make,
-      "mutual__perm2" => mutual__perm2::make,
-      "scc_chain__pari" => scc_chain__pari::make,
-      "scc_chain__u64" => scc_chain__u64::make,
-      "repeated__ser" => repeated__ser::make,
-      "repeated__u64" => repeated__u64::make,
-      "three_dyn__perm2" => three_dyn__perm2::make,
-      "four_dyn__pari" => four_dyn__pari::make,
-      "conds__src1" => conds__src1::make,
-      "conds__ren" => conds__ren::make,
-      "count_up__to" => count_up__to::make,
-      "multi_head__perm2" => multi_head__perm2::make,
-      "facts__gen" => facts__gen::make,
-      "facts__perm1" => facts__perm1::make,
-      "opt_cols__par" => opt_cols__par::make,
-      "opt_cols__redecl" => opt_cols__redecl::make,
-      "same_gen__par" => same_gen__par::make,
-      "same_gen__str" => same_gen__str::make,
-      "two_inputs__pari" => two_inputs__pari::make,
-      "two_inputs__src2" => two_inputs__src2::make,
-      "two_inputs__permpar" => two_inputs__permpar::make,
-      "ternary__par" => ternary__par::make,
-      "ternary__strpar" => ternary__strpar::make,
-      "bound_mix__str" => bound_mix__str::make,
-      "join_chain__ren" => join_chain__ren::make,
-      "reach__ser" => reach__ser::make,
-      "self_join3__ser" => self_join3__ser::make,
-      "lag_right__perm1" => lag_right__perm1::make,
-      "lag_left__par" => lag_left__par::make,
-      "lag_three__topar" => lag_three__topar::make,
-      "lag_mid__str" => lag_mid__str::make,
-      "sp_dual__ser" => sp_dual__ser::make,
-      "sp_dual__src0" => sp_dual__src0::make,
-      "sp_dual__perm2" => sp_dual__perm2::make,
-      "longest_capped__ser" => longest_capped__ser::make,
-      "set_reach__to" => set_reach__to::make,
-      "set_reach__redecl" => set_reach__redecl::make,
-      "bset__topar" => bset__topar::make,
-      "opt_lat__pari" => opt_lat__pari::make,
-      "lat_two_keys__par" => lat_two_keys__par::make,
-      "lat_val_bound__par" => lat_val_bound__par::make,
-      "count_paths__mrt" => count_paths__mrt::make,
+      "tc_left__ren" => tc_left__ren::make,
+      "tc_nonlin__to" => tc_nonlin__to::make,
+      "tc_nonlin__strpar" => tc_nonlin__strpar::make,
+      "mutual__gen" => mutual__gen::make,
+      "mutual__srcpar" => mutual__srcpar::make,
+      "scc_chain__ser" => scc_chain__ser::make,
+      "scc_chain__permpar" => scc_chain__permpar::make,
+      "consts__par" => consts__par::make,
+      "repeated__permpar" => repeated__permpar::make,
+      "three_dyn__topar" => three_dyn__topar::make,
+      "four_dyn__ser" => four_dyn__ser::make,
+      "conds__gen" => conds__gen::make,
+      "conds__srcpar" => conds__srcpar::make,
+      "count_up__ser" => count_up__ser::make,
+      "multi_head__to" => multi_head__to::make,
+      "facts__pari" => facts__pari::make,
+      "facts__redecl" => facts__redecl::make,
+      "facts__str" => facts__str::make,
+      "opt_cols__gen" => opt_cols__gen::make,
+      "opt_cols__srcpar" => opt_cols__srcpar::make,
+      "same_gen__topar" => same_gen__topar::make,
+      "not_reorderable__ser" => not_reorderable__ser::make,
+      "two_inputs__run" => two_inputs__run::make,
+      "two_inputs__init" => two_inputs__init::make,
+      "two_inputs__u64" => two_inputs__u64::make,
+      "ternary__perm1" => ternary__perm1::make,
+      "bound_mix__par" => bound_mix__par::make,
+      "bound_mix__strpar" => bound_mix__strpar::make,
+      "join_chain__str" => join_chain__str::make,
+      "reach__pari" => reach__pari::make,
+      "self_join3__pari" => self_join3__pari::make,
+      "lag_right__ren" => lag_right__ren::make,
+      "lag_left__to" => lag_left__to::make,
+      "lag_mid__par" => lag_mid__par::make,
+      "lag_mid__strpar" => lag_mid__strpar::make,
+      "multi_head_rec__pari" => multi_head_rec__pari::make,
+      "sp_dual__to" => sp_dual__to::make,
+      "sp_dual__srcto" => sp_dual__srcto::make,
+      "sp_dual__permpar" => sp_dual__permpar::make,
+      "longest_capped__pari" => longest_capped__pari::make,
+      "set_reach__run" => set_reach__run::make,
+      "set_reach__init" => set_reach__init::make,
+      "cp__ser" => cp__ser::make,
+      "lex_lat__ser" => lex_lat__ser::make,
+      "lat_two_keys__pari" => lat_two_keys__pari::make,
+      "lat_val_bound__pari" => lat_val_bound__pari::make,
+      "lat_input__gen" => lat_input__gen::make,
+      "lat_input__srcpar" => lat_input__srcpar::make,
+      "count_paths__gen" => count_paths__gen::make,
       "count_paths__srcpar" => count_paths__srcpar::make,
       "neg_basic__gen" => neg_basic__gen::make,
-      "neg_basic__perm1" => neg_basic__perm1::make,
-      "agg_minmaxsum__pari" => agg_minmaxsum__pari::make,
-      "agg_lattice__pari" => agg_lattice__pari::make,
-      "neg_rec_after__pari" => neg_rec_after__pari::make,
-      "agg_empty__pari" => agg_empty__pari::make,
-      "agg_const_args__ser" => agg_const_args__ser::make,
-      "disj__to" => disj__to::make,
-      "disj__redecl" => disj__redecl::make,
-      "disj__exp" => disj__exp::make,
-      "pat_args__par" => pat_args__par::make,
-      "rep_expr__exppar" => rep_expr__exppar::make,
-      "neg_in_disj__pari" => neg_in_disj__pari::make,
-      "mac_basic__run" => mac_basic__run::make,
-      "mac_basic__runpar" => mac_basic__runpar::make,
-      "mac_capture__exppar" => mac_capture__exppar::make,
-      "mac_gensym_disj__pari" => mac_gensym_disj__pari::make,
-      "rnd_core_01__ser" => rnd_core_01__ser::make,
-      "rnd_core_03__pari" => rnd_core_03__pari::make,
-      "rnd_core_06__par" => rnd_core_06__par::make,
-      "rnd_core_09__ser" => rnd_core_09__ser::make,
-      "rnd_core_11__pari" => rnd_core_11__pari::make,
-      "rnd_core_14__par" => rnd_core_14__par::make,
-      "rnd_core_17__ser" => rnd_core_17__ser::make,
-      "rnd_core_19__pari" => rnd_core_19__pari::make,
-      "rnd_core_22__par" => rnd_core_22__par::make,
-      "rnd_core_25__ser" => rnd_core_25__ser::make,
-      "rnd_core_27__pari" => rnd_core_27__pari::make,
-      "rnd_core_30__par" => rnd_core_30__par::make,
-      "rnd_agg_03__ser" => rnd_agg_03__ser::make,
-      "rnd_agg_05__pari" => rnd_agg_05__pari::make,
-      "rnd_agg_08__par" => rnd_agg_08__par::make,
-      "rnd_agg_11__ser" => rnd_agg_11__ser::make,
-      "rnd_agg_13__pari" => rnd_agg_13__pari::make,
+      "neg_basic__srcpar" => neg_basic__srcpar::make,
+      "agg_minmaxsum__par" => agg_minmaxsum__par::make,
+      "agg_lattice__par" => agg_lattice__par::make,
+      "neg_rec_after__par" => neg_rec_after__par::make,
+      "agg_empty__par" => agg_empty__par::make,
+      "agg_empty_rel__topar" => agg_empty_rel__topar::make,
+      "disj__pari" => disj__pari::make,
+      "disj__src2" => disj__src2::make,
+      "disj__ren" => disj__ren::make,
+      "disj_nested__exppar" => disj_nested__exppar::make,
+      "rep_expr__pari" => rep_expr__pari::make,
+      "neg_in_disj__ser" => neg_in_disj__ser::make,
+      "mac_basic__to" => mac_basic__to::make,
+      "mac_basic__srcto" => mac_basic__srcto::make,
+      "mac_capture__par" => mac_capture__par::make,
+      "mac_nested__exppar" => mac_nested__exppar::make,
+      "mac_disj__pari" => mac_disj__pari::make,
+      "rnd_core_02__pari" => rnd_core_02__pari::make,
+      "rnd_core_05__par" => rnd_core_05__par::make,
+      "rnd_core_08__ser" => rnd_core_08__ser::make,
+      "rnd_core_10__pari" => rnd_core_10__pari::make,
+      "rnd_core_13__par" => rnd_core_13__par::make,
+      "rnd_core_16__ser" => rnd_core_16__ser::make,
+      "rnd_core_18__pari" => rnd_core_18__pari::make,
+      "rnd_core_21__par" => rnd_core_21__par::make,
+      "rnd_core_24__ser" => rnd_core_24__ser::make,
+      "rnd_core_26__pari" => rnd_core_26__pari::make,
+      "rnd_core_29__par" => rnd_core_29__par::make,
+      "rnd_agg_02__ser" => rnd_agg_02__ser::make,
+      "rnd_agg_04__pari" => rnd_agg_04__pari::make,
+      "rnd_agg_07__par" => rnd_agg_07__par::make,
+      "rnd_agg_10__ser" => rnd_agg_10__ser::make,
+      "rnd_agg_12__pari" => rnd_agg_12__pari::make,
+      "rnd_agg_15__par" => rnd_agg_15__par::make,
       _ => panic!("no such program variant in this shard: {}", name),
    }
 }
